@@ -741,7 +741,8 @@ fn main() {
     // ---- phase (iv): separate processes (CLI), with side outputs; CLI seeds
     let mut cli_idx: Vec<usize> = (0..cases.len()).collect();
     // prefer cases with static functions (wrapper source) first, then random
-    cli_idx.sort_by_key(|&i| (!cases[i].has_static_fns, fnv(&format!("{}{}", cases[i].name, a.seed))));
+    // (include-path-sensitive cases always get a fresh-process reference: process-wide state shows there)
+    cli_idx.sort_by_key(|&i| (!cases[i].name.starts_with("incpath"), !cases[i].has_static_fns, fnv(&format!("{}{}", cases[i].name, a.seed))));
     cli_idx.truncate(n_cli_cases);
     let cli_jobs: Vec<(usize, Option<u64>)> = cli_idx.iter().flat_map(|&ci| {
         let mut v: Vec<(usize, Option<u64>)> = (0..n_procs).map(|_| (ci, None)).collect();
